@@ -258,35 +258,40 @@ theorem holdStepRelO (wk : Option Int) : StepRelO wk (Hold wk) where
           rw [hxn]
           show wk = some n.id
           rw [(hi node n hn).1]; exact hw
-  storeDesired g node child n vt value msg ack hn hs _ := by
-    unfold storeDesired
-    split
-    · exact hold_id wk g _ rfl
-    · split
-      · exact hold_id wk g _ rfl
-      · exact hold_id wk g _ rfl
-      · refine ⟨rfl, ?_, ?_, fun _ l hl => by simp [ret] at hl⟩
-        · intro hi
-          exact nodeInv_setNode g node n _ hn rfl (hi node n hn).2 hi
-        · apply sleepingNode_setNode g node n _ hn
-          intro h
-          simp only [Node.sleeping, Bool.not_eq_true'] at h ⊢
-          exact sleeping_aset _ _ _ h
-  directSet g node child n vt value msg ack hn hs hm := by
-    refine ⟨rfl, id, fun _ h => h, ?_⟩
-    intro _ l hl
-    simp only [emit, List.mem_singleton] at hl
-    subst hl
-    obtain ⟨vti, _, hm', _⟩ := createSetMessage_node _ _ _ _ _ _ _ hm
-    refine ⟨msg, rfl, Or.inr (Or.inl ?_)⟩
-    rw [hm']
-    simp only [sleepingNode, hn]; exact hs
   setReboot g k n hn := by
     refine ⟨rfl, ?_, ?_, fun _ l hl => by simp [ret] at hl⟩
     · intro hi; exact nodeInv_setNode g k n _ hn rfl (hi k n hn).2 hi
     · exact sleepingNode_setNode g k n _ hn (fun h => h)
   setOta g o := ⟨rfl, fun hi => hi, fun _ h => h, fun _ l hl => by simp [ret] at hl⟩
   setCanLog g := ⟨rfl, fun hi => hi, fun _ h => h, fun _ l hl => by simp [ret] at hl⟩
+
+theorem hold_storeDesired (wk : Option Int) (g : GW) (node child : Int) (n : Node) (vt : Option Int)
+    (value : Str) (hn : aget node g.sensors = some n) : Hold wk g (storeDesired g node child n vt value) := by
+  unfold storeDesired
+  split
+  · exact hold_id wk g _ rfl
+  · split
+    · exact hold_id wk g _ rfl
+    · exact hold_id wk g _ rfl
+    · refine ⟨rfl, ?_, ?_, fun _ l hl => by simp [ret] at hl⟩
+      · intro hi
+        exact nodeInv_setNode g node n _ hn rfl (hi node n hn).2 hi
+      · apply sleepingNode_setNode g node n _ hn
+        intro h
+        simp only [Node.sleeping, Bool.not_eq_true'] at h ⊢
+        exact sleeping_aset _ _ _ h
+
+theorem hold_directSet (wk : Option Int) (g : GW) (node child : Int) (n : Node) (vt : Option Int)
+    (value : Str) (msg : Msg) (ack : Int) (hn : aget node g.sensors = some n) (hs : n.sleeping = false)
+    (hm : createSetMessage g node child vt value ack = .ok msg) : Hold wk g (emit g [encLine msg]) := by
+  refine ⟨rfl, id, fun _ h => h, ?_⟩
+  intro _ l hl
+  simp only [emit, List.mem_singleton] at hl
+  subst hl
+  obtain ⟨vti, _, hm', _⟩ := createSetMessage_node _ _ _ _ _ _ _ hm
+  refine ⟨msg, rfl, Or.inr (Or.inl ?_)⟩
+  rw [hm']
+  simp only [sleepingNode, hn]; exact hs
 
 theorem hold_ignoresSubs (wk : Option Int) : IgnoresSubs (Hold wk) := by
   intro g r s h
